@@ -3,11 +3,13 @@
 package req
 
 import (
+	"context"
 	"encoding/json"
 	"encoding/xml"
 	"errors"
 	"fmt"
 	"io"
+	"io/fs"
 	"math/rand"
 	"net/http"
 	"net/http/httptest"
@@ -21,6 +23,7 @@ import (
 	"sync"
 	"sync/atomic"
 	"testing"
+	"time"
 
 	"github.com/imroc/req/v3/internal/verifh"
 )
@@ -98,6 +101,14 @@ type c18Scenario struct {
 	// a response-body transformer is installed on the client (every scripted response then says what
 	// it does with that body: c18Http.xf)
 	xform bool
+	// Request.SetOutput (verb even) / SetOutputFile (verb odd); outFails: per attempt, writing /
+	// creating the output fails
+	save     bool
+	outFails []bool
+	// SetRetryCount(-1): nothing bounds the attempts but the scripted retry conditions
+	unbounded bool
+	// per attempt: the request's context is cancelled when the wait before the next attempt begins
+	ctxDone []bool
 }
 
 var c18ErrGetBody = errors.New("c18 GetBody failure")
@@ -124,6 +135,10 @@ func c18PipeErrName(err error) string {
 	var ue *url.Error
 	if errors.As(err, &ue) && ue.Op == "parse" {
 		return "builtin"
+	}
+	var pe *fs.PathError
+	if errors.As(err, &pe) {
+		return "output" // SetOutputFile: the file or its directory cannot be created
 	}
 	return n
 }
@@ -193,7 +208,12 @@ func c18Facts(h *c18Http, ck c18Checker) {
 	}
 }
 
-func c18ErrArg(i int) string { return "s" + strconv.Itoa(i) }
+func c18ErrArg(i int) string {
+	if i == c18CtxCanceled {
+		return "ctxcanceled"
+	}
+	return "s" + strconv.Itoa(i)
+}
 
 func (t c18TOut) enc() string {
 	if t.fail >= 0 {
@@ -231,7 +251,7 @@ func c18EncStages(st [][]c18Act) string {
 }
 
 func (sc *c18Scenario) line(fixes string) string {
-	flags := c18b(sc.builderErr) + c18b(sc.unreplayable) + c18b(sc.sT) + c18b(sc.eT) + c18b(sc.cE) + c18b(sc.autoRead) + c18b(sc.hook)
+	flags := c18b(sc.builderErr) + c18b(sc.unreplayable) + c18b(sc.sT) + c18b(sc.eT) + c18b(sc.cE) + c18b(sc.autoRead) + c18b(sc.hook) + c18b(sc.save)
 	bi := "-"
 	if len(sc.builtin) > 0 {
 		p := make([]string, len(sc.builtin))
@@ -269,8 +289,30 @@ func (sc *c18Scenario) line(fixes string) string {
 			conds = "0"
 		}
 	}
-	return fmt.Sprintf("c18pipe %s %c %s %s %s %s %s %s %s %s %d:%s", fixes, sc.entry, flags, c18EncStages(sc.udReq), bi,
-		c18EncStages(sc.wrappers), gb, tr, c18EncStages(sc.clientResp), c18EncStages(sc.reqResp), sc.maxRetries, conds)
+	bits := func(l []bool) string {
+		if len(l) == 0 {
+			return "-"
+		}
+		o := ""
+		for _, b := range l {
+			o += c18b(b)
+		}
+		return o
+	}
+	n := strconv.Itoa(sc.maxRetries)
+	if sc.unbounded {
+		n = "u" + strconv.Itoa(sc.natt()+2) // fuel: the attempts the script describes, and a margin
+	}
+	return fmt.Sprintf("c18pipe %s %c %s %s %s %s %s %s %s %s %s:%s:%s %s", fixes, sc.entry, flags, c18EncStages(sc.udReq), bi,
+		c18EncStages(sc.wrappers), gb, tr, c18EncStages(sc.clientResp), c18EncStages(sc.reqResp), n, conds, bits(sc.ctxDone), bits(sc.outFails))
+}
+
+// natt: how many attempts the script describes
+func (sc *c18Scenario) natt() int {
+	if sc.unbounded {
+		return len(sc.conds)
+	}
+	return sc.maxRetries + 1
 }
 
 func c18At[T any](l []T, a int, d T) T {
@@ -301,6 +343,27 @@ type c18Obs struct {
 	noBuiltin    bool     // a later stage ran although Request.URL was never parsed
 	nilRespSeen  bool     // a request-level response middleware was handed a nil *Response
 	foreign      []string // stages / settings of ANOTHER client (parent or copy) that took part in the call
+	runaway      bool     // an unbounded retry went on beyond the attempts the script describes
+	fileFail     bool     // SetOutputFile variant: some attempt was given a path that cannot be created
+}
+
+// c18OutDir is where the SetOutputFile variant writes (set by the lane to t.TempDir()).
+var c18OutDir string
+
+// c18OutWriter is the SetOutput target: Write fails on the attempts the script says.
+type c18OutWriter struct {
+	buf    []byte
+	fail   func() bool
+	onFail func()
+}
+
+func (w *c18OutWriter) Write(p []byte) (int, error) {
+	if w.fail() {
+		w.onFail()
+		return 0, c18ErrOutput
+	}
+	w.buf = append(w.buf, p...)
+	return len(p), nil
 }
 
 type c18UnmCall struct {
@@ -563,6 +626,20 @@ func c18Run(sc *c18Scenario) *c18Obs {
 	add(func(c *Client) {
 		c.OnBeforeRequest(func(_ *Client, r *Request) error {
 			touch()
+			if sc.save && sc.verb%2 == 1 { // SetOutputFile variant: the path is chosen per attempt
+				dir := c18OutDir
+				if dir == "" {
+					dir = os.TempDir()
+				}
+				if c18At(sc.outFails, att(), false) {
+					o.fileFail = true
+					blocker := filepath.Join(dir, "c18-blocker")
+					os.WriteFile(blocker, []byte("x"), 0o600)
+					r.SetOutputFile(filepath.Join(blocker, "sub", "x.out")) // parent is a regular file: cannot be created
+				} else {
+					r.SetOutputFile(filepath.Join(dir, "c18-"+strconv.Itoa(sc.verb)+".out"))
+				}
+			}
 			if c18At(sc.builtin, att(), false) {
 				raise("builtin")
 				r.RawURL = "http://[::1"
@@ -720,10 +797,43 @@ func c18Run(sc *c18Scenario) *c18Obs {
 			return nil
 		})
 	}
-	if sc.maxRetries > 0 || sc.conds != nil {
-		req.SetRetryCount(sc.maxRetries).SetRetryFixedInterval(0)
+	if sc.save && sc.verb%2 == 0 {
+		req.SetOutput(&c18OutWriter{fail: func() bool { return c18At(sc.outFails, att(), false) }, onFail: func() { raise("output") }})
+	} else if sc.save {
+		req.SetOutputFile("c18-placeholder.out") // replaced per attempt by the hidden request middleware
+	}
+	if len(sc.ctxDone) > 0 {
+		ctx, cancel := context.WithCancel(context.Background())
+		defer cancel()
+		req.SetContext(ctx)
+		// the retry hook runs after the retry decision and before the wait: cancelling there makes
+		// the context done exactly when the wait begins (the interval is long so that only the
+		// context can end that wait)
+		req.SetRetryHook(func(*Response, error) {
+			if c18At(sc.ctxDone, att()-1, false) {
+				cancel()
+			}
+		})
+	}
+	if sc.maxRetries > 0 || sc.conds != nil || sc.unbounded {
+		n := sc.maxRetries
+		if sc.unbounded {
+			n = -1
+		}
+		req.SetRetryCount(n).SetRetryInterval(func(_ *Response, attempt int) time.Duration {
+			if c18At(sc.ctxDone, attempt-1, false) {
+				return time.Hour
+			}
+			return 0
+		})
 		if sc.conds != nil {
-			req.SetRetryCondition(func(*Response, error) bool { return c18At(sc.conds, att(), false) })
+			req.SetRetryCondition(func(*Response, error) bool {
+				if att() >= len(sc.conds)+2 {
+					o.runaway = true
+					return false
+				}
+				return c18At(sc.conds, att(), false)
+			})
 		}
 	}
 	needBody := false
@@ -754,6 +864,7 @@ func c18Run(sc *c18Scenario) *c18Obs {
 	// package-level helpers (req.Get, req.MustPost, …) delegate to the default client; usable
 	// when the scenario configures nothing at request level
 	usePkg := (sc.entry == 'v' || sc.entry == 'm') && !sc.sT && !sc.eT && len(sc.reqResp) == 0 && sc.maxRetries == 0 &&
+		!sc.save && !sc.unbounded && len(sc.ctxDone) == 0 &&
 		sc.conds == nil && !needBody && !sc.unreplayable && !sc.builderErr && !reqLevelNoAutoRead && sc.verb%4 == 3
 	if usePkg {
 		req = nil
@@ -888,8 +999,19 @@ func (o *c18Obs) answer(sc *c18Scenario) string {
 	default:
 		es = "?"
 	}
+	// the cached body must be the body of the exchange the response carries (as sent, or as the
+	// body transformer rewrote it)
+	cached := "0"
+	if b := r.Bytes(); b != nil {
+		cached = "1"
+		if r.Response != nil {
+			if f := o.facts[r.Header.Get("X-Tag")]; f != nil && string(b) != f.body && string(b) != f.wire() {
+				cached = "X"
+			}
+		}
+	}
 	return "ret err=" + c18PipeErrName(o.err) + " hooks=" + strconv.Itoa(o.hooks) + " rerr=" + c18PipeErrName(r.Err) + " http=" + tag +
-		" status=" + st + " state=" + state + " cached=" + c18b(r.Bytes() != nil) + " res=" + c18b(r.SuccessResult() != nil) + " eslot=" + es + " log=" + log
+		" status=" + st + " state=" + state + " cached=" + cached + " res=" + c18b(r.SuccessResult() != nil) + " eslot=" + es + " log=" + log
 }
 
 func c18Suppressing(sc *c18Scenario) bool {
@@ -913,6 +1035,9 @@ func (o *c18Obs) oracle(sc *c18Scenario) string {
 	}
 	if len(o.foreign) > 0 {
 		return "stages/settings of another client (its parent or its copy) took part in the call: " + strings.Join(o.foreign, ".")
+	}
+	if o.runaway {
+		return "the retry loop went on beyond the attempts the retry conditions allow"
 	}
 	verbStyle := sc.entry != 'd'
 	if o.mustPanicked {
@@ -944,8 +1069,13 @@ func (o *c18Obs) oracle(sc *c18Scenario) string {
 	if sc.builderErr && r.Err == nil {
 		return "a request setter recorded an error but the call reports none"
 	}
-	if sc.unreplayable && sc.maxRetries != 0 && r.Err == nil {
+	if sc.unreplayable && (sc.maxRetries != 0 || sc.unbounded) && r.Err == nil {
 		return "retry with an unreplayable body was accepted"
+	}
+	if b := r.Bytes(); b != nil && r.Response != nil {
+		if f := o.facts[r.Header.Get("X-Tag")]; f != nil && string(b) != f.body && string(b) != f.wire() {
+			return "the cached body is not the body of the response the caller holds (final exchange)"
+		}
 	}
 	res, es := r.SuccessResult() != nil, r.ErrorResult() != nil
 	if res && es {
@@ -1019,13 +1149,13 @@ func (o *c18Obs) oracle(sc *c18Scenario) string {
 			if r.Err == nil {
 				return "a stage of the final attempt raised " + strings.Join(last, ",") + " but the call reports no error"
 			}
-			if n := c18PipeErrName(r.Err); !all[n] && n != "digest" {
+			if n := c18PipeErrName(r.Err); !all[n] && n != "digest" && !(n == "ctxdone" && len(sc.ctxDone) > 0) && !(n == "output" && o.fileFail) {
 				return "the call reports " + n + " which no stage raised"
 			}
 		}
 		if len(all) == 1 && len(last) > 0 {
 			for e := range all {
-				if n := c18PipeErrName(r.Err); n != e && n != "digest" {
+				if n := c18PipeErrName(r.Err); n != e && n != "digest" && !(n == "ctxdone" && len(sc.ctxDone) > 0) && !(n == "output" && o.fileFail) {
 					return "the only error raised is " + e + " but the call reports " + c18PipeErrName(r.Err)
 				}
 			}
@@ -1253,6 +1383,58 @@ func c18Finish(r *rand.Rand, sc *c18Scenario, pXform, pClone int) *c18Scenario {
 	if r.Intn(pXform) == 0 {
 		sc.xform = true
 	}
+	// unbounded retry: SetRetryCount(-1), the scripted retry conditions alone end the loop
+	if sc.maxRetries > 0 && r.Intn(4) == 0 {
+		natt := sc.maxRetries + 1
+		if sc.conds == nil {
+			sc.conds = make([]bool, natt)
+			for i := range sc.conds {
+				sc.conds[i] = r.Intn(3) != 0
+			}
+		}
+		sc.conds[natt-1] = false
+		sc.unbounded, sc.maxRetries = true, 0
+	}
+	natt := sc.natt()
+	// the context is done at the wait before some retry
+	if natt > 1 && r.Intn(5) == 0 {
+		sc.ctxDone = make([]bool, natt)
+		for i := range sc.ctxDone {
+			sc.ctxDone[i] = r.Intn(3) == 0
+		}
+	}
+	// a transport error that wraps context.Canceled
+	if sc.e2e == "" {
+		for i := range sc.transport {
+			if sc.transport[i].fail >= 0 && r.Intn(6) == 0 {
+				sc.transport[i].fail = c18CtxCanceled
+			}
+		}
+	}
+	// SetOutput / SetOutputFile, the output failing on some attempts
+	if r.Intn(5) == 0 {
+		sc.save = true
+		if r.Intn(2) == 0 {
+			sc.outFails = make([]bool, natt)
+			for a := range sc.outFails {
+				sc.outFails[a] = r.Intn(3) == 0
+				if sc.outFails[a] && sc.e2e != "" && a < len(sc.transport) && sc.transport[a].h != nil &&
+					(sc.transport[a].h.status == 204 || sc.transport[a].h.status == 304) {
+					sc.outFails[a] = false // a real origin sends no body with these: nothing would be written
+				}
+				if sc.outFails[a] && a < len(sc.transport) && sc.transport[a].h != nil {
+					// (a read failure and an output failure are not combined, and an empty body never
+					// reaches Write: see Req.Pipeline.download)
+					h := sc.transport[a].h
+					h.readOK = true
+					if h.body == "" {
+						h.body = c18Bodies[0]
+					}
+					c18Facts(h, sc.checker)
+				}
+			}
+		}
+	}
 	each := func(h *c18Http) {
 		if h == nil {
 			return
@@ -1262,7 +1444,9 @@ func c18Finish(r *rand.Rand, sc *c18Scenario, pXform, pClone int) *c18Scenario {
 			switch x := r.Intn(10); {
 			case x < 5:
 				h.xf = "k"
-			case x < 8:
+			case x < 8 && !(sc.e2e != "" && sc.save):
+				// (not with a real connection + SetOutput: ToBytes closes the body it failed to transform and
+				// handleDownload then reads the closed body — an error of the transport's, not of a stage)
 				h.xf = "n" + strconv.Itoa(c18GenErr(r))
 			default:
 				h.xf = "b" + strconv.Itoa(c18GenErr(r))
@@ -1277,6 +1461,14 @@ func c18Finish(r *rand.Rand, sc *c18Scenario, pXform, pClone int) *c18Scenario {
 			if a.kind == "d" {
 				each(a.re.h)
 			}
+		}
+	}
+	for a, f := range sc.outFails {
+		// (a transformer that fails AND returns nil leaves nothing to copy: a failing io.Writer is then
+		// never written to, while a failing file creation still fails — the model does not tell the two
+		// kinds of output apart, so the combination is not generated)
+		if f && a < len(sc.transport) && sc.transport[a].h != nil && strings.HasPrefix(sc.transport[a].h.xf, "n") {
+			sc.transport[a].h.xf = "b" + sc.transport[a].h.xf[1:]
 		}
 	}
 	if r.Intn(pClone) == 0 {
@@ -1455,6 +1647,18 @@ func c18ModelBuckets(hist *c18Hist, sc *c18Scenario, ans string) {
 	}
 	hist.Count("entry=" + string(sc.entry))
 	hist.Count("clonepath=" + strconv.Itoa(sc.path))
+	if sc.save {
+		hist.Count("save")
+	}
+	if sc.unbounded {
+		hist.Count("unbounded")
+		if strings.Count(f["log"], "|") > 0 {
+			hist.Count("unbounded-retried")
+		}
+	}
+	if len(sc.ctxDone) > 0 {
+		hist.Count("ctx-script")
+	}
 	if sc.xform {
 		hist.Count("xform")
 		for _, t := range sc.transport {
@@ -1510,6 +1714,7 @@ func c18ModelBuckets(hist *c18Hist, sc *c18Scenario, ans string) {
 }
 
 func c18RunLane(t *testing.T, s *verifh.Session, hist *c18Hist, scs []*c18Scenario) {
+	c18OutDir = t.TempDir()
 	impl := make([]string, len(scs))
 	verdict := make([]string, len(scs))
 	for i, sc := range scs {
@@ -1641,7 +1846,9 @@ func TestVerif_C18_pipe(t *testing.T) {
 	s.Finish()
 	hist.need(t, "bound=success", "bound=errorR", "bound=errorC", "out=err:unm", "out=err:s", "out=err:builtin", "out=err:getbody", "out=err:builder",
 		"out=err:unreplay", "out=err:digest", "out=mustpanic", "out=ok", "attempts=1", "attempts=2", "attempts=3", "attempts=4", "final=nohttp",
-		"digest-resent", "hook=1", "entry=d", "entry=s", "entry=v", "entry=m")
+		"digest-resent", "hook=1", "entry=d", "entry=s", "entry=v", "entry=m",
+		"save", "out=err:output", "unbounded-retried", "out=err:ctxdone", "out=err:ctxcanceled", "xform-fails+err",
+		"clonepath=1", "clonepath=2", "clonepath=3")
 }
 
 // TestVerif_C18_e2e: the same contract over a real connection: req's own Transport against an
